@@ -24,6 +24,19 @@ class Inconclusive(Exception):
     """solver answered unknown / resource limit: never a verdict"""
 
 
+def _no_silent_bool(self):
+    """z3py evaluates `bool(a == b)` structurally (False for different terms) instead of refusing: a raw solver term that leaks
+    into Python control flow of the executed source would silently take one branch.  Refuse instead (literals are fine)."""
+    if z3.is_true(self):
+        return True
+    if z3.is_false(self):
+        return False
+    raise Unsupported("a raw solver term reached Python control flow (bool() of a z3 expression): wrap it in a Tensor so that the explorer forks")
+
+
+z3.BoolRef.__bool__ = _no_silent_bool
+
+
 class Explorer:
     def __init__(self):
         self.reset_all()
